@@ -60,7 +60,7 @@ PROPS.update({
         "rule": FILE_RULE + "; each file is also read by the frozen grenad 0.4.7 reader, and the same inputs are written by the 0.4.7 writer (codecs both versions support) and read by the current reader and the model",
         "trusted": ["grenad 0.4.7 from the offline cargo registry as the frozen peer", "codec crates via the per-run compression table"],
         "assumptions": [],
-        "not_proved": ["C09_format for whole files (the index tree: every index level maps the last key of each child to the child's offset; frames tile the body): proved for each block (C09_block_layout, C09_block_decodes) and for the trailer (C09_trailer_layout); the tree shape is proved on the abstract writer of design-notes/WriterTree_probe.v and checked on every generated file by the extracted independent decoder Format.decode_file"],
+        "not_proved": ["the last assembly step: from C09_file_structure (frames tile the body, every block loads back, tree invariant TI with last keys and offsets, root last, trailer) to the wf_store hypothesis of the reader theorems (a store indexed by offset with distinct offsets and ascending level sequences) is not yet proved; it is checked on every generated file by the extracted independent decoder and StoreCheck.store_wf"],
     },
     "C15": {
         "prop_file": "props/C15.v",
@@ -141,7 +141,7 @@ MANIFEST_TEXT = {
         "technique": "Rocq proof (induction over inserts: block writer invariant, parse/decode inversion) + byte-exact model/implementation differential execution",
     },
     "C09": {
-        "text": "Proved: the layout of every finished block (varint-framed entries, u64 BE offset table with first 0 and one slot per interval, u32 BE count: C09_block_layout), that an independent decoder recovers its entries (C09_block_decodes) and the 22-byte LE trailer layout with magic 0x6723D4C4 (C09_trailer_layout, C09_constants over re-extracted constants). Every run: model file = implementation file byte for byte, the extracted independent tree decoder recovers the inputs, the frozen grenad 0.4.7 reader recovers them, and files written by the 0.4.7 writer are read back by the current reader and the model.",
+        "text": "Proved for the whole writer model (C09_file_structure, C09_blocks_load_back): the file is the frames of the emitted blocks (u64 BE compressed length + block) at their recorded offsets followed by the 22-byte trailer, the root block last and named by the trailer, and at every index level the entries are exactly the (last key, u64 BE offset) items of the blocks one level below while the data level spells exactly the inserted entries; plus the layout of every finished block (varint-framed entries, u64 BE offset table with first 0 and one slot per interval, u32 BE count: C09_block_layout), that an independent decoder recovers its entries (C09_block_decodes) and the 22-byte LE trailer layout with magic 0x6723D4C4 (C09_trailer_layout, C09_constants over re-extracted constants). Every run: model file = implementation file byte for byte, the extracted independent tree decoder recovers the inputs, the frozen grenad 0.4.7 reader recovers them, and files written by the 0.4.7 writer are read back by the current reader and the model.",
         "design_ref": "DESIGN.md §5 C09",
         "note": "Partial proof (tree-level clause validated, not proved). Trusted: kernel; grenad 0.4.7 as frozen peer; codec crates; extraction, driver, harness. Axioms: none.",
         "technique": "Rocq proof (format lemmas per block and trailer) + independent extracted decoder + 0.4.7 interop matrix by differential execution",
